@@ -480,6 +480,12 @@ def removeLoop : List GBlock → List Rat → List GBlock → Except Exc (List G
     let i := blks.findIdx (fun b => b.name = r.name)
     if i < thicks.length then removeLoop (blks.eraseIdx i) (thicks.eraseIdx i) rs else .error .indexError
 
+/-- `layerthicks[-1] if layerthicks else block_height` -/
+def lastOr (l : List Rat) (d : Rat) : Rat :=
+  match l.getLast? with
+  | some t => t
+  | none => d
+
 /-- the new surface of one column (`none`: left as it is because the track is empty);
     `removed` are the names of the inactive blocks (`[]` unless `remove_inactive`) -/
 def columnSurface (T : TGrid) (g : Geo) (mp : BlockMap) (maxVol : Rat) (col : Column)
@@ -511,10 +517,7 @@ def columnSurface (T : TGrid) (g : Geo) (mp : BlockMap) (maxVol : Rat) (col : Co
               | some c =>
                 if top.volume > 0 then
                   let bh := top.volume / col.area
-                  let lt := match thicks.getLast? with
-                    | some t => t
-                    | none => bh
-                  .ok (some (surfaceFormula c.z bh lt))
+                  .ok (some (surfaceFormula c.z bh (lastOr thicks bh)))
                 else
                   match thicks.getLast? with
                   | some t => .ok (some (c.z + (1 / 2 : Rat) * t))
